@@ -20,7 +20,8 @@ THEOREMS = [
     "Yaw.C17.slice_commutes_sum", "Yaw.C17.patch_slice_sum", "Yaw.C17.iter_bins",
     "Yaw.C17.bins_sel", "Yaw.C17.bins_sel_empty", "Yaw.C17.sliceSel_step_one",
     "Yaw.C17Ctor.counts_ctor_spec", "Yaw.C17Ctor.sumweights_ctor_spec", "Yaw.C17Ctor.sampled_ctor_spec",
-    "Yaw.C17Ctor.normalised_ctor_spec", "Yaw.C17Ctor.corrfunc_ctor_spec",
+    "Yaw.C17Ctor.normalised_ctor_spec", "Yaw.C17Ctor.corrfunc_ctor_spec", "Yaw.C17Ctor.drain_from",
+    "Yaw.C17Ctor.iteration_complete", "Yaw.C17Ctor.indexer_flags",
 ]
 RULE = ("random containers (B 1..5, N 1..6, auto/cross, members dd + random subset of dr/rd/rr) x operation drawn "
         "from {mul by scalar, add (compatible / other edges / other closed side / other patch number), bins[int], "
@@ -361,6 +362,22 @@ def run(prop, tier, seed, replay):
                             f"iteration over {label}.{'bins' if axis == 'b' else 'patches'} "
                             f"{'raised ' + err if err else 'yielded %d items instead of %d' % (len(items), n)}",
                             {"class": label, "op": "iter", "axis": axis, "request": reqmap[f"{ci}.{ks[0]}.{axis}0"]})
+                        continue
+                    # iterations that overlap in time on ONE container: nested loops, zip with itself, an abandoned loop
+                    src_obj = cf if label == "CorrFunc" else o
+                    acc = (lambda x=src_obj: x.bins) if axis == "b" else (lambda x=src_obj: x.patches)
+                    ov, oerr = attempt(lambda: (
+                        sum(1 for _a in acc() for _b in acc()),
+                        [a == b for a, b in zip(acc(), acc())],
+                        (lambda it1: (next(it1), len(list(acc())), sum(1 for _ in iter(lambda: next(it1, None), None))))(iter(acc()))[1:]))
+                    ck.count(f"iter-overlap:{label}:{axis}")
+                    if oerr or ov[0] != n * n or ov[1] != [True] * n or ov[2] != (n, n - 1):
+                        ck.add_violation(
+                            f"overlapping iterations over {label}.{'bins' if axis == 'b' else 'patches'} of one container interfere: "
+                            + (f"raised {oerr}" if oerr else f"nested loops visit {ov[0]} pairs (expected {n * n}), zip with itself pairs "
+                               f"equal items: {ov[1]}, a full loop started inside an abandoned one yields {ov[2][0]} items and the "
+                               f"abandoned one continues with {ov[2][1]} (expected {n}, {n - 1})"),
+                            {"class": label, "op": "iter-overlap", "axis": axis, "request": reqmap[f"{ci}.{ks[0]}.{axis}0"]})
                         continue
                     for j, itx in enumerate(items):
                         bad = next((d for k, obj in members(itx)
